@@ -578,11 +578,16 @@ func c04Failover(r *Run) {
 	}
 	external := genExternal(t)
 	layer := genLayer(t, LayerOpts{MaxExtra: 2})
-	if t.Bool(1, 3, "c04.fo.algpresent") {
+	pinned := false
+	if t.Bool(1, 2, "c04.fo.algpresent") {
 		a := k1.Alg
 		layer = genLayer(t, LayerOpts{MaxExtra: 2, Alg: &a})
+		pinned = true
 	}
-	m := &cose.Sign1Message{Headers: libHeaders(layer, Spelling{T: t}, true), Payload: genPayload(t, false)}
+	// the caller may have written the header with any Go integer type for
+	// its labels (an untyped constant in a map literal is an int)
+	sp := Spelling{T: t, Labels: true, AlgLabel: t.Bool(1, 2, "c04.fo.spell")}
+	m := &cose.Sign1Message{Headers: libHeaders(layer, sp, t.Bool(1, 2, "c04.fo.typed")), Payload: genPayload(t, false)}
 	ent := NewEntropy(uint64(t.U32("entropy.seed")))
 	first := &SpySigner{Inner: r.signerFor(k1, false), Alg: cose.Algorithm(k1.Alg), Fault: "err"}
 	var err1 error
@@ -599,6 +604,12 @@ func c04Failover(r *Run) {
 	}
 	r.Outcome(fmt.Sprintf("failover/samealg=%v/%s", k1.Alg == k2.Alg, extClass(external)))
 	r.Check()
+	if pinned && k1.Alg != k2.Alg && (err2 == nil || len(second.Calls) > 0) {
+		// the caller had pinned alg = k1's algorithm in the protected header:
+		// the failed first attempt must not have un-pinned it
+		r.Fail("failover-overrides-pinned-algorithm/label-spelling="+spellingClass(m.Headers.Protected), "the protected header pinned alg %d; after a failed attempt with a signer of that algorithm, Sign with a signer of algorithm %d returned %v and called the signer %d time(s)", k1.Alg, k2.Alg, err2, len(second.Calls))
+		return
+	}
 	if err2 != nil {
 		if len(second.Calls) > 0 {
 			r.Fail("failover-key-used-then-error", "second signer was called although Sign returned %v", err2)
